@@ -418,12 +418,16 @@ class RemoteWorker(Worker, metaclass=RemoteWorkerMeta):
         try:
             self._result = recv_msg(self._socket, comment='data: result')
             logger.debug('Result received')
-        except ConnectionClosedError:
+        except Exception:
+            # connection closed, or the result cannot be rebuilt on this side: nothing could be reported
             self._result = (False, None)
-            logger.debug('Connection to the child has been closed before receiving the result')
+            logger.debug('Connection to the child has been closed before receiving the result', exc_info=1)
         else:
-            self._user_state = recv_msg(self._socket, comment='data: user state')
-            logger.debug('User state received')
+            try:
+                self._user_state = recv_msg(self._socket, comment='data: user state')
+                logger.debug('User state received')
+            except Exception:
+                logger.debug('User state could not be received', exc_info=1)
         logger.details('Result: {}', self._result)
 
     # Handles serialization between:
